@@ -26,9 +26,9 @@ PROP = dict(
           'selector)); non-trivial = at least two threads run the same codec '
           'on the same shared pool array concurrently; distinct by hash of '
           '(thread count, repeats, pool contents, assignment)'),
-    quick=dict(configs=['tsan', 'rel'], cases=2400, maxlen=200, workers=8,
+    quick=dict(configs=['tsan', 'rel'], cases=60000, maxlen=200, workers=8,
                shares={'tsan': 6, 'rel': 2}),
-    thorough=dict(configs=['tsan', 'rel'], cases=40000, maxlen=200, workers=8,
+    thorough=dict(configs=['tsan', 'rel'], cases=600000, maxlen=200, workers=8,
                   shares={'tsan': 6, 'rel': 2}, fuzz_s=0),
     required_classes=['concurrent.for', 'concurrent.pfor', 'concurrent.dict',
                       'concurrent.dict.shared', 'concurrent.adaptive.auto',
